@@ -134,6 +134,36 @@ def ctor(size: Optional[int], init: Optional[int]) -> bool:
     return done()
 
 
+def ctor_alias(grow: int) -> bool:
+    """
+    pre: 0 <= grow < 5
+    post: __return__
+    """
+    # contents handed over as a bytearray (e.g. another interval's) are copied: later edits of the source do not show
+    g = pick(grow, 5)
+    with untraced():
+        orig = gtirb.ByteInterval(size=8, contents=b"\x01\x02\x03\x04", uuid=UUID(int=4))
+        dup = gtirb.ByteInterval(size=4, contents=orig.contents, uuid=UUID(int=5))
+        buf = bytearray(b"\x09\x09")
+        third = gtirb.ByteInterval(size=2, contents=buf, uuid=UUID(int=6))
+        if g == 0:
+            orig.initialized_size = 8
+        elif g == 1:
+            orig.contents += b"\x07"
+        elif g == 2:
+            orig.contents[0] = 0x55
+        elif g == 3:
+            buf += b"\x01\x02\x03"
+        else:
+            buf[1] = 0
+        ok = bytes(dup.contents) == b"\x01\x02\x03\x04" and dup.initialized_size == 4 and len(dup.contents) <= dup.size
+        ok = ok and bytes(third.contents) == b"\x09\x09" and len(third.contents) <= third.size
+        ok = ok and dup.contents is not orig.contents and third.contents is not buf
+    if not ok:
+        return fail("an interval shares its byte storage with the object it was constructed from (edit %d)" % g)
+    return done()
+
+
 def from_proto(size: int, has_addr: bool, addr: int) -> bool:
     """
     pre: _u64(size) and _u64(addr)
@@ -235,6 +265,7 @@ def shards(tier):
         out.append({"fn": "ctor", "consts": {"L": L}, "timeout": 300})
         out.append({"fn": "from_proto", "consts": {"L": L}, "timeout": 300})
         out.append({"fn": "view_contents", "consts": {"L": L}, "timeout": 300})
+    out.append({"fn": "ctor_alias", "consts": {}, "timeout": 300, "cover": False})
     out.append({"fn": "views", "consts": {"kind": "data"}, "timeout": 300})
     out.append({"fn": "views", "consts": {"kind": "code"}, "timeout": 300})
     return out
